@@ -88,6 +88,34 @@ pub enum Opaque {
     FeeTooLow { acct: usize },
     /// no fee lock at all: rejected
     NoFee { acct: usize },
+    /// pool manager call `protected_withdraw(amount, strategy)` on the world's one-resource pool
+    /// (manager rule = allow_all), the bucket deposited into the account; strategy 0 = Exact,
+    /// 1..=7 = Rounded(mode)
+    ProtectedWithdraw { acct: usize, amount: A, strategy: u8 },
+}
+
+pub fn withdraw_strategy(k: u8) -> WithdrawStrategy {
+    match k {
+        0 => WithdrawStrategy::Exact,
+        1 => WithdrawStrategy::Rounded(RoundingMode::ToZero),
+        2 => WithdrawStrategy::Rounded(RoundingMode::ToPositiveInfinity),
+        3 => WithdrawStrategy::Rounded(RoundingMode::ToNegativeInfinity),
+        4 => WithdrawStrategy::Rounded(RoundingMode::AwayFromZero),
+        5 => WithdrawStrategy::Rounded(RoundingMode::ToNearestMidpointTowardZero),
+        6 => WithdrawStrategy::Rounded(RoundingMode::ToNearestMidpointAwayFromZero),
+        _ => WithdrawStrategy::Rounded(RoundingMode::ToNearestMidpointToEven),
+    }
+}
+
+/// What an opaque transaction must not do whatever the ledger state: a withdrawal of a negative
+/// amount can never succeed.
+pub fn opaque_expectation(op: &Opaque, obs: &Obs) -> Result<(), Failure> {
+    if let Opaque::ProtectedWithdraw { amount, .. } = op {
+        if *amount < 0 && obs.run.is_success() {
+            return Err(fail("a withdrawal of a negative amount succeeded", format!("{:?} ; actual: {}", op, obs.run.outcome_string())));
+        }
+    }
+    Ok(())
 }
 
 pub struct Session<'w> {
@@ -163,14 +191,25 @@ impl<'w> Session<'w> {
         let ext = self.ext();
         let acct = g.index(self.wd.accounts.len());
         let a = self.wd.accounts[acct].0;
-        let op = match g.weighted(&[4, 3, 2, 3, 3, 1, 1]) {
+        let op = match g.weighted(&[4, 3, 2, 3, 3, 1, 1, 3]) {
             0 => Opaque::Stake { acct, xrd: (1 + g.below(200) as A) * ONE / 4 },
             1 => Opaque::Unstake { acct, part: 1 + g.below(4) },
             2 => Opaque::Claim { acct },
             3 => Opaque::Contribute { acct, amount: (1 + g.below(3000) as A) * ONE / 7 },
             4 => Opaque::Redeem { acct, part: 1 + g.below(4) },
             5 => Opaque::FeeTooLow { acct },
-            _ => Opaque::NoFee { acct },
+            6 => Opaque::NoFee { acct },
+            _ => {
+                let amount = match g.weighted(&[4, 3, 1, 1, 1, 1]) {
+                    0 => (1 + g.below(400) as A) * ONE / 3,
+                    1 => -((1 + g.below(50) as A) * ONE / 10),
+                    2 => -1,
+                    3 => 0,
+                    4 => 1,
+                    _ => 10_000_000 * ONE,
+                };
+                Opaque::ProtectedWithdraw { acct, amount, strategy: g.below(8) as u8 }
+            }
         };
         let b = ManifestBuilder::new();
         let manifest = match &op {
@@ -217,6 +256,11 @@ impl<'w> Session<'w> {
             }
             Opaque::FeeTooLow { .. } => b.lock_fee(a, dec(ONE / 1_000_000)).withdraw_from_account(a, XRD, dec(ONE)).deposit_entire_worktop(a).build(),
             Opaque::NoFee { .. } => b.withdraw_from_account(a, XRD, dec(ONE)).deposit_entire_worktop(a).build(),
+            Opaque::ProtectedWithdraw { amount, strategy, .. } => b
+                .lock_fee_from_faucet()
+                .call_method(ext.pool, "protected_withdraw", (dec(*amount), withdraw_strategy(*strategy)))
+                .deposit_entire_worktop(a)
+                .build(),
         };
         let proofs = vec![self.wd.accounts[acct].1.clone()];
         let obs = self.run_raw(manifest, proofs);
